@@ -1,5 +1,8 @@
 import Tmv.Lemmas.Validate
 import Tmv.Lemmas.MerkleRootInj
+import Tmv.Lemmas.MerkleRootInjTraced
+import Tmv.Model.ValidateCommit
+import Tmv.Props.C07
 /-! # C06 — Block validation is exact and the state transition is a deterministic function
 Property theorems only. Hash functions, `VerifyCommit` (C07) and evidence admissibility (C11) are
 the fields of an arbitrary `Env`; nothing is assumed about them. -/
@@ -389,6 +392,113 @@ theorem content_bound_by_header (H : Bytes → Bytes) (L : Nat) (hlen : ∀ x, (
   · right; exact r1
 
 end ConcreteHashes
+
+section Traced
+open Tmv.Merkle
+
+/-- every byte string passed to `H` while computing the three content hashes of a block (the
+transactions themselves, then the nodes of the three Merkle trees) -/
+def contentPre (H : Bytes → Bytes) (b : Block) : List Bytes :=
+  b.txs ++ rootPre H b.txs.length (b.txs.map H)
+    ++ rootPre H b.evidence.length (b.evidence.map (·.inner))
+    ++ (match b.lastCommit with
+        | some c => rootPre H c.sigs.length (c.sigs.map encCommitSig)
+        | none => [])
+
+/-- `content_bound_by_header` with a *traced* collision: the alternative to "same contents" is a
+collision between a string hashed while hashing the contents of `b'` and one hashed while hashing
+the contents of `b` — linearly many explicitly listed inputs, so the disjunct is not true by a
+counting argument. -/
+theorem content_bound_by_header_traced (H : Bytes → Bytes) (L : Nat) (hlen : ∀ x, (H x).length = L)
+    (vc : ValSet → Bytes → BlockID → Int → Commit → Option String) (adm : State → List Ev → Bool)
+    (st : State) (b b' : Block)
+    (hv : validateBlock (concreteEnv H vc adm) st b = .ok ())
+    (hv' : validateBlock (concreteEnv H vc adm) st b' = .ok ()) (hh : b'.header = b.header) :
+    (b'.txs = b.txs ∧ b'.evidence.map (·.inner) = b.evidence.map (·.inner) ∧
+      ∃ c c', b.lastCommit = some c ∧ b'.lastCommit = some c' ∧
+        c'.sigs.map encCommitSig = c.sigs.map encCommitSig)
+    ∨ CollisionIn H (contentPre H b') (contentPre H b) := by
+  obtain ⟨c, hc, d1, e1, l1⟩ := valid_hashes _ st b hv
+  obtain ⟨c', hc', d2, e2, l2⟩ := valid_hashes _ st b' hv'
+  rw [hh] at d2 e2 l2
+  have hd : root H (b'.txs.map H) = root H (b.txs.map H) := by
+    have := d2.symm.trans d1; simpa [concreteEnv, dataHash] using this
+  have he : root H (b'.evidence.map (·.inner)) = root H (b.evidence.map (·.inner)) := by
+    have := e2.symm.trans e1; simpa [concreteEnv, evHash] using this
+  have hl : root H (c'.sigs.map encCommitSig) = root H (c.sigs.map encCommitSig) := by
+    have := l2.symm.trans l1; simpa [concreteEnv, commitHash] using this
+  unfold contentPre
+  rw [hc, hc']
+  simp only
+  rcases root_inj_traced H L hlen _ _ hd with r1 | r1
+  · rcases map_hash_inj_traced H _ _ r1 with t | t
+    · rcases root_inj_traced H L hlen _ _ he with r2 | r2
+      · rcases root_inj_traced H L hlen _ _ hl with r3 | r3
+        · left; exact ⟨t, r2, c, c', rfl, rfl, r3⟩
+        · right
+          simp only [List.length_map] at r3
+          exact r3.mono H (fun x hx => List.mem_append_right _ hx) (fun x hx => List.mem_append_right _ hx)
+      · right
+        simp only [List.length_map] at r2
+        exact r2.mono H (fun x hx => List.mem_append_left _ (List.mem_append_right _ hx))
+          (fun x hx => List.mem_append_left _ (List.mem_append_right _ hx))
+    · right
+      exact t.mono H
+        (fun x hx => List.mem_append_left _ (List.mem_append_left _ (List.mem_append_left _ hx)))
+        (fun x hx => List.mem_append_left _ (List.mem_append_left _ (List.mem_append_left _ hx)))
+  · right
+    simp only [List.length_map] at r1
+    exact r1.mono H
+      (fun x hx => List.mem_append_left _ (List.mem_append_left _ (List.mem_append_right _ hx)))
+      (fun x hx => List.mem_append_left _ (List.mem_append_left _ (List.mem_append_right _ hx)))
+
+end Traced
+
+section WithC07
+open Tmv.CommitVerify (GoodPick pickedPower sumPower NonNeg)
+
+theorem toCVBlockID_inj {a b : BlockID} (h : toCVBlockID a = toCVBlockID b) : a = b := by
+  cases a; cases b; simp [toCVBlockID] at h; simp [h]
+
+/-- **Accepted ⇒ the last commit carries more than two thirds of valid signatures.** With the
+last-commit clause of `validateBlock` being C07's model of `VerifyCommit` (`cvEnv`), a block above
+the initial height is accepted only if its `LastCommit` is for the previous height and for the
+node's `LastBlockID`, has one slot per member of `LastValidators`, and there are distinct positions
+whose slots are flagged for-the-block and carry a signature that verifies under the key of the
+validator AT THAT POSITION over exactly (chain id, height, round, block id, slot timestamp), with
+`3 · power > 2 · total power` (C07 `verifyCommit_sound`). `sigOK` is an arbitrary predicate. -/
+theorem accepted_commit_two_thirds (H : Bytes → Bytes)
+    (sigOK : Nat → CommitVerify.SignBytes → Bytes → Bool) (adm : State → List Ev → Bool)
+    (st : State) (b : Block) (hnn : ∀ v ∈ st.lastVals, 0 ≤ v.power)
+    (hv : validateBlock (cvEnv H sigOK adm) st b = .ok ())
+    (hne : b.header.height ≠ st.initialHeight) :
+    ∃ c, b.lastCommit = some c ∧ c.height = b.header.height - 1 ∧ c.blockID = st.lastBlockID ∧
+      st.lastVals.length = c.sigs.length ∧
+      ∃ picks : List Nat, picks.Nodup ∧
+        (∀ i ∈ picks, GoodPick sigOK (toCVVals st.lastVals) (chainStr st.chainID) (toCVCommit c) false (i, i)) ∧
+        3 * pickedPower (toCVVals st.lastVals) picks > 2 * sumPower (toCVVals st.lastVals) := by
+  rw [validate_iff_spec] at hv
+  obtain ⟨c, hc, _, _, _, _, _, hC, _⟩ := hv
+  unfold CommitOK at hC
+  rw [if_neg hne] at hC
+  have hok : CommitVerify.verifyCommit sigOK (toCVVals st.lastVals) (chainStr st.chainID)
+      (toCVBlockID st.lastBlockID) (b.header.height - 1) (toCVCommit c) = .ok := by
+    have : resClass (CommitVerify.verifyCommit sigOK (toCVVals st.lastVals) (chainStr st.chainID)
+      (toCVBlockID st.lastBlockID) (b.header.height - 1) (toCVCommit c)) = none := hC
+    revert this
+    cases CommitVerify.verifyCommit sigOK (toCVVals st.lastVals) (chainStr st.chainID)
+      (toCVBlockID st.lastBlockID) (b.header.height - 1) (toCVCommit c) <;> simp [resClass]
+  have hnn' : NonNeg (toCVVals st.lastVals) := by
+    intro v hv
+    simp only [toCVVals, List.mem_map] at hv
+    obtain ⟨w, hw, rfl⟩ := hv
+    exact hnn w hw
+  obtain ⟨h1, h2, h3, _, picks, hnd, hg, hp⟩ :=
+    Tmv.Props.C07.verifyCommit_sound sigOK _ _ _ _ _ hnn' hok
+  refine ⟨c, hc, h1, toCVBlockID_inj h2, ?_, picks, hnd, hg, hp⟩
+  simpa [toCVVals, toCVCommit] using h3
+
+end WithC07
 
 /-- the hash functions produce `tmhash.Size` bytes (true of SHA-256 and of its Merkle roots) -/
 def HashLen (env : Env) : Prop :=
